@@ -34,7 +34,9 @@ type ckState struct {
 	hasVer bool
 }
 
-func readCheckpoint(srv *mredis.Server, name string) ckState {
+func readCheckpoint(srv *mredis.Server, name string) ckState { return readCheckpointFor(srv, name, incrSource) }
+
+func readCheckpointFor(srv *mredis.Server, name, source string) ckState {
 	var st ckState
 	srv.Lock()
 	defer srv.Unlock()
@@ -48,15 +50,15 @@ func readCheckpoint(srv *mredis.Server, name string) ckState {
 		if e == nil || e.Kind != "hash" {
 			continue
 		}
-		o, ok := e.Hash[incrSource+"-"+utils.CheckpointOffset]
+		o, ok := e.Hash[source+"-"+utils.CheckpointOffset]
 		if !ok {
 			continue
 		}
 		off, _ := strconv.ParseInt(o, 10, 64)
 		if !st.found || off > st.offset {
 			st = ckState{found: true, offset: off, db: n}
-			st.runid, st.hasRun = e.Hash[incrSource+"-"+utils.CheckpointRunId]
-			_, st.hasVer = e.Hash[incrSource+"-"+utils.CheckpointVersion]
+			st.runid, st.hasRun = e.Hash[source+"-"+utils.CheckpointRunId]
+			_, st.hasVer = e.Hash[source+"-"+utils.CheckpointVersion]
 		}
 	}
 	return st
@@ -247,7 +249,7 @@ func checkCuts(base, cmds [][][]byte, sc c03Script, c incrConf, want []applied, 
 			if len(app) < j {
 				sig = "cut:data-behind-checkpoint"
 			}
-			msg = fmt.Sprintf("%s: target holds %d data commands, the source history up to the stored offset has %d (first difference at %d)", where, len(app), j, idx)
+			msg = fmt.Sprintf("%s: target holds %d data commands, the source history up to the stored offset has %d (first difference at %d); received so far: %s", where, len(app), j, idx, clipCmds(cmds[:i], 14))
 			return
 		}
 		if ck.found {
@@ -371,6 +373,25 @@ func restartFromCut(c incrConf, sc c03Script, startOffset int64, prefix [][][]by
 	return "", ""
 }
 
+// clipCmds renders the last n of the given commands.
+func clipCmds(cmds [][][]byte, n int) string {
+	if len(cmds) > n {
+		cmds = cmds[len(cmds)-n:]
+	}
+	var parts []string
+	for _, c := range cmds {
+		var a []string
+		for _, x := range c {
+			if len(x) > 24 {
+				x = x[:24]
+			}
+			a = append(a, strconv.Quote(string(x)))
+		}
+		parts = append(parts, strings.Join(a, " "))
+	}
+	return strings.Join(parts, " ; ")
+}
+
 func clipApplied(a []applied) []applied {
 	if len(a) > 8 {
 		return a[:8]
@@ -388,7 +409,7 @@ func c04Batch(t *rapid.T) {
 	picks := make([][]int, k)
 	for i := range scripts {
 		sc := c03Script{startDB: -1}
-		sc.st = drawStream(t, streamOpts{maxCmds: 25, startSelect: true, dbs: []int{0, 1, 2, 5}, noCkKeys: true})
+		sc.st = drawStream(t, streamOpts{maxCmds: 25, startSelect: true, dbs: []int{0, 1, 2, 5, 11, 12}, noCkKeys: true})
 		sc.splits, sc.delays = drawSplits(t, len(sc.st.bytes), 1200*time.Millisecond)
 		scripts[i] = sc
 		offsets[i] = rapid.SampledFrom([]int64{0, 1000, 1 << 33}).Draw(t, "startOffset")
